@@ -173,6 +173,9 @@ func Prepare(s *ev.S, opt Options) (*BuildReport, error) {
 			case "struct", "union", "exception":
 				fmt.Fprintf(&sb, "\treg.Add(%q, %q, reflect.TypeOf(%s.%s{}))\n", pk, d.Name, alias(pk), d.Name)
 				used = true
+			case "const":
+				fmt.Fprintf(&sb, "\treg.Extra[%q] = %s.%s\n", pk+"."+d.Name, alias(pk), d.Name)
+				used = true
 			case "service":
 				for _, fn := range d.Funcs {
 					fmt.Fprintf(&sb, "\treg.Extra[%q] = %s.%s_%s_Helper\n", pk+"."+d.Name+"_"+fn.Name+"_Helper", alias(pk), d.Name, fn.Name)
